@@ -109,6 +109,16 @@ func genC03(r *rt.Rand, tier string, idx int) *world.Scenario {
 		for c := 0; c < nwr; c++ {
 			sc.Clients = append(sc.Clients, writer(c, nw/nwr+1))
 		}
+		if r.Chance(0.4) {
+			// a compaction runs while the readers read: a read not below the floor is still exact at every
+			// moment of the compaction (a read below it may be refused)
+			sc.Class += "+compaction"
+			var cl world.Client
+			for i := 0; i < 1+r.Intn(2); i++ {
+				cl.Ops = append(cl.Ops, world.Op{K: "get", Key: keys[0]}, world.Op{K: "compact", Rev: world.Rev{M: "committed", N: -int64(r.Intn(4))}})
+			}
+			sc.Clients = append(sc.Clients, cl)
+		}
 		for c := 0; c < 1+r.Intn(2); c++ {
 			var cl world.Client
 			first := reads(6 + r.Intn(10))
